@@ -355,6 +355,9 @@ def run(ctx):
         ccases.append(connlib.gen_two_party(real, rng, "r%d" % i, steps=rng.choice([60, 120]), loss=0.2, dup=0.3, delay=0.6,
                                             max_delay=rng.choice([200, 800, 2000]), replay=0.1, sizes=[8, 20, 60], send_rate=0.3,
                                             si=16, ka=rng.choice([15, 32]), heal=False,
+                                            # damaged and forged copies in between (every third case): what does not authenticate must
+                                            # leave no mark in the window - the headers emitted afterwards name received datagrams only
+                                            attacker=0.3 if i % 3 == 0 else 0.0,
                                             start={"ss": 65535 - rng.randint(0, 40), "sm": 65400, "sf": 1} if i % 2 else None))
     # a retransmitted message that arrives further behind the newest message number than the 256-wide message window is wide and was
     # never received before is NOT a duplicate (the generator is C05's)
